@@ -8,6 +8,7 @@ package mempool
 import (
 	"context"
 	"encoding/json"
+	"errors"
 	"fmt"
 	"sort"
 	"testing"
@@ -128,7 +129,7 @@ func TestDriveMempool(t *testing.T) {
 			case "Remove":
 				tx := testTx{arg: a, pub: keys[a.S-1], msgs: msgsOf(a)}
 				e, _ := drv.Recover(func() error { return mp.Remove(tx) })
-				if e == sdkmempool.ErrTxNotFound {
+				if errors.Is(e, sdkmempool.ErrTxNotFound) {
 					ev["res"] = "notfound"
 				} else if e != nil {
 					ev["res"] = "err:" + e.Error()
